@@ -633,6 +633,44 @@ func c03SendAll(r *core.Run, fld *types.Var) {
 			keep = append(keep, f)
 		}
 	}
+	// (the request may be built by a helper of the package that reads the keys and hands the request to the
+	// function calling BranchRegister: the helper is where the keys are joined and stored)
+	builder := map[*core.FuncInfo]*core.FuncInfo{} // helper -> the function that registers what it builds
+	if len(keep) == 0 {
+		for _, f := range dedupFns(regFns) {
+			for _, cs := range w.Calls(f) {
+				h := w.Info(cs.Static)
+				if h == nil || h.Pkg != f.Pkg || h == f || h.Decl.Body == nil {
+					continue
+				}
+				uses := false
+				ast.Inspect(h.Decl.Body, func(n ast.Node) bool {
+					if sel, ok := n.(*ast.SelectorExpr); ok && h.Pkg.TypesInfo.Uses[sel.Sel] == fld {
+						uses = true
+					}
+					return !uses
+				})
+				if !uses {
+					continue
+				}
+				// its result is what BranchRegister is handed
+				handed := false
+				for _, cs2 := range w.Calls(f) {
+					if isBranchRegister(w, cs2.Static) {
+						for _, a := range cs2.Call.Args {
+							if strings.Contains(origin(f, a, 4), "call:"+core.ShortKey(h.Obj)+"(") {
+								handed = true
+							}
+						}
+					}
+				}
+				if handed {
+					keep = append(keep, h)
+					builder[h] = f
+				}
+			}
+		}
+	}
 	if len(keep) == 0 {
 		r.Anchor("C03.sendall", nil, "function in pkg/datasource/sql that reads TransactionContext.LockKeys and calls BranchRegister")
 		return
@@ -736,6 +774,19 @@ func c03SendAll(r *core.Run, fld *types.Var) {
 			// the argument is the request variable whose LockKeys was set
 			r.Check(cp.Before.Maybe("keysset"), "C03.sendall", key+" -> BranchRegister : LockKeys set", w.Pos(cp.Call.Pos()), "the joined keys reach BranchRegisterParam.LockKeys before the call",
 				"BranchRegister is called without the joined lock keys having been stored in the request")
+		}
+		if reg := builder[f]; reg != nil {
+			// the builder hands back the request with the keys stored (on some path: only AT mode has keys)
+			stored := false
+			for _, ex := range res.Exits {
+				if ex.St.Maybe("keysset") {
+					stored = true
+				}
+			}
+			r.Sites++
+			r.Fn(reg)
+			r.Check(stored, "C03.sendall", key+" -> BranchRegister : LockKeys set", w.Pos(f.Decl.Pos()), "the joined keys reach BranchRegisterParam.LockKeys before the request is handed back to "+core.ShortKey(reg.Obj),
+				"the request is handed back for BranchRegister without the joined lock keys having been stored in it")
 		}
 		for _, ap := range res.Assigns {
 			r.Sites++
@@ -878,10 +929,73 @@ func c03SFU(r *core.Run, live []*types.Named) {
 	// outer: error exits after the inner step ran pass a rollback; rows only with a nil step error
 	oinfo := ec.Pkg.TypesInfo
 	var stepErr types.Object
+	// (the step may be driven by a retry helper of the executor whose own error is the step's: it returns an error
+	// variable that is assigned from the step, and otherwise only where it is nil — a nil answer of the helper
+	// means the last step answered nil)
+	stepErrCarrier := func(h *core.FuncInfo) bool {
+		if h == nil || h.Pkg != ec.Pkg || h == ec || h.Decl.Body == nil {
+			return false
+		}
+		hinfo := h.Pkg.TypesInfo
+		var ev types.Object
+		okAll, fromStep := true, false
+		ast.Inspect(h.Decl.Body, func(n ast.Node) bool {
+			if _, isLit := n.(*ast.FuncLit); isLit {
+				return false
+			}
+			if rs, isRet := n.(*ast.ReturnStmt); isRet && len(rs.Results) == 2 {
+				o := core.ObjOf(hinfo, rs.Results[1])
+				if o == nil || (ev != nil && o != ev) {
+					okAll = false
+				}
+				ev = o
+			}
+			return true
+		})
+		if ev == nil || !okAll {
+			return false
+		}
+		var stack []ast.Node
+		ast.Inspect(h.Decl.Body, func(n ast.Node) bool {
+			if n == nil {
+				stack = stack[:len(stack)-1]
+				return true
+			}
+			stack = append(stack, n)
+			as, isAs := n.(*ast.AssignStmt)
+			if !isAs {
+				return true
+			}
+			for i, l := range as.Lhs {
+				if core.ObjOf(hinfo, l) != ev {
+					continue
+				}
+				if len(as.Rhs) == 1 && len(as.Lhs) == 2 && i == 1 {
+					if c, isCall := as.Rhs[0].(*ast.CallExpr); isCall && core.Callee(hinfo, c) == inner.Obj {
+						fromStep = true
+						continue
+					}
+				}
+				guarded := false
+				for _, anc := range stack {
+					if ifs, isIf := anc.(*ast.IfStmt); isIf {
+						if be, isBin := ast.Unparen(ifs.Cond).(*ast.BinaryExpr); isBin && be.Op == token.EQL && core.ObjOf(hinfo, be.X) == ev && isNilIdent(hinfo, be.Y) && as.Pos() >= ifs.Body.Pos() && as.End() <= ifs.Body.End() {
+							guarded = true
+						}
+					}
+				}
+				if !guarded {
+					okAll = false
+				}
+			}
+			return true
+		})
+		return okAll && fromStep
+	}
 	ast.Inspect(ec.Decl.Body, func(n ast.Node) bool {
 		as, ok := n.(*ast.AssignStmt)
 		if ok && len(as.Rhs) == 1 && len(as.Lhs) == 2 {
-			if c, ok := as.Rhs[0].(*ast.CallExpr); ok && core.Callee(oinfo, c) == inner.Obj {
+			if c, ok := as.Rhs[0].(*ast.CallExpr); ok && (core.Callee(oinfo, c) == inner.Obj || stepErrCarrier(w.Info(core.Callee(oinfo, c)))) {
 				stepErr = core.ObjOf(oinfo, as.Lhs[1])
 			}
 		}
